@@ -5,6 +5,8 @@ import CSD.Lemmas.HashBlocks
 import CSD.Generated.Bodies
 import CSD.Model.SourceText
 import CSD.Lemmas.PFCMeta
+import CSD.Lemmas.FM17
+import CSD.Lemmas.RPFC9
 
 namespace CSD.Props.C12
 open CSD CSD.PFC
@@ -88,5 +90,31 @@ theorem models_match_source_text :
     Generated.body_PFC_getHeader = SourceText.body_PFC_getHeader ∧
     Generated.body_PFC_decodeNextString = SourceText.body_PFC_decodeNextString ∧
     Generated.body_PFC_extract = SourceText.body_PFC_extract := ⟨rfl, rfl, rfl, rfl, rfl, rfl⟩
+
+
+/-! ### RPFC and FMINDEX -/
+
+/-- Two RPFC objects that store the same dictionary — whatever their bucket sizes and whatever rules Re-Pair
+chose for each — answer `locate` identically. -/
+theorem rpfc_locate_independent_of_parameters {S : List Str} {d₁ d₂ : RPFC.D} (h₁ : RPFC.Stores S d₁) (h₂ : RPFC.Stores S d₂)
+    (hv : validDict S = true) (q : Str) (hq : PFC.nulFree q) : RPFC.locate d₁ q = RPFC.locate d₂ q := by
+  obtain ⟨hne, hn, hs, _⟩ := PFC.validDict_facts hv
+  rw [RPFC.locate_stores h₁ q hne hn hq hs, RPFC.locate_stores h₂ q hne hn hq hs]
+
+theorem rpfc_extract_independent_of_parameters {S : List Str} {d₁ d₂ : RPFC.D} (h₁ : RPFC.Stores S d₁) (h₂ : RPFC.Stores S d₂)
+    (i : Nat) (h1 : 1 ≤ i) (h2 : i ≤ S.length) : RPFC.extract d₁ i = RPFC.extract d₂ i := by
+  rw [RPFC.extract_stores h₁ i h1 h2, RPFC.extract_stores h₂ i h1 h2]
+
+/-- Two FM-index dictionaries of the same strings — whatever suffix arrays, bitmap kinds (abstracted) and BWT
+sampling steps they were built with — answer `locate`, `locatePrefix` and (both with sampling) `locateSubstr`
+identically. -/
+theorem fmindex_answers_independent_of_parameters {S : List Str} {L₁ L₂ : List FM.Row} {d₁ d₂ : FM.Dict}
+    (hv : validDict S = true) (h₁ : FM.DictOK S L₁ d₁) (h₂ : FM.DictOK S L₂ d₂)
+    (s₁ : FM.BuiltS (FM.mkText S) L₁ d₁.ix) (s₂ : FM.BuiltS (FM.mkText S) L₂ d₂.ix)
+    (q : Str) (hq : q.all validByte = true) (hne : q ≠ []) :
+    d₁.locate q = d₂.locate q ∧ d₁.locateSubstr q = d₂.locateSubstr q := by
+  refine ⟨?_, ?_⟩
+  · rw [FM.locate_spec hv h₁ q hq, FM.locate_spec hv h₂ q hq]
+  · rw [FM.locateSubstr_spec hv h₁ s₁ q hq hne, FM.locateSubstr_spec hv h₂ s₂ q hq hne]
 
 end CSD.Props.C12
